@@ -9,5 +9,25 @@ fn max_i32_i64() {
     let r = maximum(&v, n);
     let ok = r.is_ok();
     core::mem::forget(r);
-    assert_eq!(ok, (v as i128) <= (n as i128));
+    assert!(ok == ((v as i128) <= (n as i128)), "contract: is_ok <=> v <= n");
+}
+#[kani::proof]
+#[kani::stub(alloc::fmt::format, fmt_stub)]
+fn max_u64_i64() {
+    let v: u64 = kani::any();
+    let n: i64 = kani::any();
+    let r = maximum(&v, n);
+    let ok = r.is_ok();
+    core::mem::forget(r);
+    assert!(ok == ((v as i128) <= (n as i128)), "contract: is_ok <=> v <= n");
+}
+#[kani::proof]
+#[kani::stub(alloc::fmt::format, fmt_stub)]
+fn max_f64_f64() {
+    let v: f64 = kani::any();
+    let n: f64 = kani::any();
+    let r = maximum(&v, n);
+    let ok = r.is_ok();
+    core::mem::forget(r);
+    assert!(ok == (v <= n), "contract: is_ok <=> v <= n");
 }
